@@ -461,6 +461,22 @@ def unary_shard(spec: Dict[str, Any], chk: Checker) -> List[Any]:
                 i += 1
         batch.append(Item(f'"{s}"', sum(v << (8 * k) for k, v in enumerate(raw)), [], False, 'literals'))
     batch.append(Item('""', 0, [], False, 'literals'))
+    # decimal literals of thousands of digits (CPython refuses int(str) beyond 4300 digits; the language has no such limit):
+    # their value is computed here by an independent Horner loop, and observed through a modulus, a shift and a difference
+    lit_rng = random.Random(len(batch))
+    for n_digits in (3999, 4000, 4001, 4300, 4301, 5000, 7999, 8000, 8001, 12345):
+        digits = str(lit_rng.randrange(1, 10)) + ''.join(lit_rng.choice('0123456789') for _ in range(n_digits - 1))
+        value = 0
+        for k in range(0, n_digits, 1000):
+            piece = digits[k:k + 1000]
+            value = value * 10 ** len(piece) + int(piece)
+        batch.append(Item(f'({digits} % 1000000007)', value % 1000000007, [], False, 'literals'))
+        shift = value.bit_length() - 100
+        batch.append(Item(f'({digits} >> {shift})', value >> shift, [], False, 'literals'))
+        tail = int(digits[-9:])
+        delta = lit_rng.randrange(0, tail + 1)
+        other = digits[:-9] + f'{tail - delta:09d}'
+        batch.append(Item(f'({digits} - {other})', delta, [], False, 'literals'))
     for i in range(0, len(batch), 180):
         chk.check_batch(batch[i:i + 180], {})
     return [{'text': batch[7].text, 'table_value': str(batch[7].value)}]
